@@ -138,3 +138,53 @@ def simulate(ctx, module, cfg, num, depth, seed):
                                                   'states': n, 'seed': seed})
     ctx.log('TLC -simulate %s/%s: %d behaviours, %d states' % (module, cfg, len(behs), n))
     return behs
+
+
+# ---------------------------------------------------------------- Layer-B binding: recorded DFS schedules
+def scc_schedule_events(b):
+    """b: {trace, n, E, naming, shuf}.  Runs compute_SCCs on a recording DiGraph subclass and returns the
+    micro-event trace for TraceSCC.tla (or None when the routine cannot be observed this way)."""
+    name = NAMINGS[b.get('naming', 'int')]
+    idx = {name(i): i for i in range(64)}
+    rng = random.Random(b.get('shuf', 0))
+    V = [name(i) for i in range(b['n'])]
+    E = [(name(a), name(c)) for a, c in b['E']]
+    rng.shuffle(V)
+    rng.shuffle(E)
+    log = []
+    Base = pymc.DiGraph
+
+    class Rec(Base):
+        def __init__(self, V, E):
+            super().__init__(V, E)
+            self._calls = {}
+
+        def nodes(self):
+            for s in list(Base.nodes(self)):
+                log.append({'ev': 'root', 's': idx[s]})
+                yield s
+
+        def next(self, v):
+            k = self._calls.get(v, 0)
+            self._calls[v] = k + 1
+            base = Base.next(self, v)
+            if k > 0:
+                return base                 # second visit: the lowlink loop
+
+            def it():
+                for w in list(base):
+                    log.append({'ev': 'adv', 'v': idx[v], 'w': idx[w]})
+                    yield w
+                log.append({'ev': 'exh', 'v': idx[v]})
+            return it()
+    try:
+        g = Rec(V, E)
+        comps = [[idx[v] for v in comp] for comp in pymc.graphmod.compute_SCCs(g)]
+    except Exception as ex:
+        return [{'trace': b['trace'], 'i': 0, 'ev': 'graph', 'n': b['n'], 'E': b['E']},
+                {'trace': b['trace'], 'i': 1, 'ev': 'end', 'emitted': [[-1]], 'error': type(ex).__name__}]
+    evs = [{'ev': 'graph', 'n': b['n'], 'E': b['E']}] + log + [{'ev': 'end', 'emitted': comps}]
+    for i, e in enumerate(evs):
+        e['trace'] = b['trace']
+        e['i'] = i
+    return evs
